@@ -154,6 +154,30 @@ ROWS_T = [
     {'gfx': [63, 64], 'gff': [0], 'map': [1], 'sfx': [31, 32],
      'music': list(range(64)), 'label': [1]},
 ]
+def cli(x, p):
+    """`p8tool writep8 in.p8` through tool.main: the rewritten cart is byte
+    for byte the cart picotool wrote before (all sections, label, version),
+    and the input is not touched."""
+    from props import clikit
+    from props.C13 import cart_text
+    tag = x.choice('tag', [1, 77, 127])
+    label = x.bool('label')
+    src = cart_text(tag, label=label)
+    fs = clikit.MemFS(x, {'/w/in.p8': src})
+    rc, exc = clikit.run_main(['writep8', '/w/in.p8'])
+    x.check('writep8 succeeds', And(exc is None, rc == 0),
+            info=repr((rc, exc))[:120])
+    x.check('exactly in_fmt.p8 is written',
+            fs.opened_for_write == ['/w/in_fmt.p8'])
+    x.check('the input keeps its bytes', fs.files['/w/in.p8'] == src)
+    if '/w/in_fmt.p8' in fs.files:
+        x.check('re-writing the re-read cart gives a byte-identical file',
+                fs.files['/w/in_fmt.p8'] == src)
+        x.check('a label section is present exactly when the cart has a '
+                'label', (b'__label__' in bytes(fs.files['/w/in_fmt.p8']))
+                == label)
+
+
 HARNESSES = [
     Harness('regions', roundtrip,
             quick=[dict(Q, rows=ROWS_Q, label=True, maxver=65535),
@@ -172,4 +196,5 @@ HARNESSES = [
                       for c in ('comment', 'string', 'ident')] +
                      [dict(Q, code='comment', ncode=2, crlf=True,
                            final_nl=False, maxver=8, _budget=1800)]),
+    Harness('cli', cli, quick=[Q]),
 ]
